@@ -1,6 +1,13 @@
 package main
 
 import (
+	"fmt"
+	"math/big"
+	"strings"
+
+	"github.com/nspcc-dev/neo-go/pkg/core/native/nativehashes"
+	"github.com/nspcc-dev/neo-go/pkg/util"
+
 	"verif/harness/internal/chainx"
 )
 
@@ -119,4 +126,191 @@ func init() {
 		},
 		restarts: []uint32{5},
 	})
+}
+
+// gcall builds one guarded setter call with explicit arguments (corpus use).
+func (w *world) gcall(kind string, bad bool, args ...any) *op {
+	targets := map[string]struct {
+		h util.Uint160
+		m string
+	}{
+		"policy.setAttributeFee":                {nativehashes.PolicyContract, "setAttributeFee"},
+		"policy.setMaxValidUntilBlockIncrement": {nativehashes.PolicyContract, "setMaxValidUntilBlockIncrement"},
+		"policy.setMaxTraceableBlocks":          {nativehashes.PolicyContract, "setMaxTraceableBlocks"},
+		"policy.setMillisecondsPerBlock":        {nativehashes.PolicyContract, "setMillisecondsPerBlock"},
+		"notary.setMaxNotValidBeforeDelta":      {nativehashes.Notary, "setMaxNotValidBeforeDelta"},
+		"oracle.setPrice":                       {nativehashes.OracleContract, "setPrice"},
+		"neo.setRegisterPrice":                  {nativehashes.NeoToken, "setRegisterPrice"},
+		"neo.setGasPerBlock":                    {nativehashes.NeoToken, "setGasPerBlock"},
+		"management.setMinimumDeploymentFee":    {nativehashes.ContractManagement, "setMinimumDeploymentFee"},
+	}
+	t := targets[kind]
+	return w.guardedSet(kind, t.h, t.m, bad, args...)
+}
+
+// gdes builds one designateAsRole call with explicit key indices (corpus use).
+func (w *world) gdes(role int64, bad bool, idx ...int) *op {
+	pubs := make([]any, len(idx))
+	strs := make([]string, len(idx))
+	for i, k := range idx {
+		pubs[i] = w.net.Pub(k % w.nkeys).Bytes()
+		strs[i] = fmt.Sprint(k % w.nkeys)
+	}
+	nodes := "-"
+	if len(strs) > 0 {
+		nodes = strings.Join(strs, ".")
+	}
+	return w.committeeOp("role.designate", nativehashes.RoleManagement, "designateAsRole",
+		fmt.Sprintf("%d %s", role, nodes), true, bad, role, pubs)
+}
+
+func init() {
+	var mtb0, vub0 int64 // protocol values at genesis of this case
+	corpus = append(corpus, corpusCase{
+		// every guard of the committee setters at its boundary, on both sides, incl. cross checks that read what an
+		// earlier transaction of the same block cached and what a restarted replica re-read from storage
+		name: "guard-boundaries", csize: 2, vcount: 1, extra: 2, blocks: 13,
+		gen: func(c *caseRun, h uint32) []*op {
+			w := c.w
+			switch h {
+			case 1:
+				mtb0, vub0 = int64(w.bc().GetMaxTraceableBlocks()), int64(w.bc().GetMaxValidUntilBlockIncrement())
+				return compact(c.setupGasOnly())
+			case 2:
+				return compact(
+					w.gcall("policy.setAttributeFee", false, int64(33), int64(10_0000_0000)),
+					w.gcall("policy.setAttributeFee", false, int64(33), int64(10_0000_0001)),
+					w.gcall("policy.setAttributeFee", false, int64(34), int64(0)),
+					w.gcall("policy.setAttributeFee", false, int64(2), int64(5)),
+					w.gcall("policy.setAttributeFee", true, int64(33), int64(7)),
+					w.gcall("policy.setAttributeFee", false, int64(256), int64(7)),
+					w.gcall("policy.setAttributeFee", false, int64(1), int64(1<<32)))
+			case 3:
+				return compact(
+					w.gcall("policy.setMaxTraceableBlocks", false, mtb0),
+					w.gcall("policy.setMaxTraceableBlocks", false, mtb0+1),
+					w.gcall("policy.setMaxTraceableBlocks", true, mtb0-1))
+			case 4:
+				return compact(
+					w.gcall("policy.setMaxTraceableBlocks", false, vub0+1),
+					w.gcall("policy.setMaxValidUntilBlockIncrement", false, vub0+1), // = the MaxTraceableBlocks just cached: fault
+					w.gcall("policy.setMaxValidUntilBlockIncrement", false, vub0))
+			case 5: // B restarted before this block: it checks against values re-read from storage
+				return compact(
+					w.gcall("policy.setMaxTraceableBlocks", false, vub0), // not above MaxValidUntilBlockIncrement: fault
+					w.gcall("policy.setMaxValidUntilBlockIncrement", false, vub0-1),
+					w.gcall("policy.setMaxTraceableBlocks", false, vub0),
+					w.gcall("policy.setMaxValidUntilBlockIncrement", false, int64(0)),
+					w.gcall("policy.setMaxValidUntilBlockIncrement", true, vub0-2))
+			case 6:
+				vub := vub0 - 1
+				return compact(
+					w.gcall("notary.setMaxNotValidBeforeDelta", false, vub/2),
+					w.gcall("notary.setMaxNotValidBeforeDelta", false, vub/2+1),
+					w.gcall("notary.setMaxNotValidBeforeDelta", false, int64(1)),
+					w.gcall("notary.setMaxNotValidBeforeDelta", false, int64(0)),
+					w.gcall("notary.setMaxNotValidBeforeDelta", true, int64(1)))
+			case 7:
+				return compact(
+					w.gcall("policy.setMillisecondsPerBlock", false, int64(30000)),
+					w.gcall("policy.setMillisecondsPerBlock", false, int64(30001)),
+					w.gcall("policy.setMillisecondsPerBlock", false, int64(0)),
+					w.gcall("policy.setMillisecondsPerBlock", false, int64(1)),
+					w.gcall("policy.setMillisecondsPerBlock", true, int64(500)),
+					w.gcall("policy.setMillisecondsPerBlock", false, int64(1000)))
+			case 8:
+				return compact(
+					w.gcall("neo.setRegisterPrice", false, int64(1)),
+					w.gcall("neo.setRegisterPrice", false, int64(0)),
+					w.gcall("neo.setRegisterPrice", false, new(big.Int).SetUint64(1<<63)),
+					w.gcall("neo.setRegisterPrice", false, int64(1<<63-1)),
+					w.gcall("neo.setRegisterPrice", true, int64(77)),
+					w.gcall("oracle.setPrice", false, int64(1)),
+					w.gcall("oracle.setPrice", false, int64(0)),
+					w.gcall("oracle.setPrice", true, int64(5)))
+			case 9:
+				return compact(
+					w.gcall("neo.setGasPerBlock", false, int64(10_0000_0000)),
+					w.gcall("neo.setGasPerBlock", false, int64(10_0000_0001)),
+					w.gcall("neo.setGasPerBlock", false, int64(0)),
+					w.gcall("neo.setGasPerBlock", false, int64(-1)),
+					w.gcall("neo.setGasPerBlock", true, int64(3)),
+					w.gcall("management.setMinimumDeploymentFee", false, int64(-1)),
+					w.gcall("management.setMinimumDeploymentFee", true, int64(7)),
+					w.gcall("management.setMinimumDeploymentFee", false, int64(0)),
+					w.gcall("management.setMinimumDeploymentFee", false, new(big.Int).Add(new(big.Int).Lsh(big.NewInt(1), 64), big.NewInt(3_0000_0000))))
+			case 10: // B restarted before this block
+				var many []int
+				for i := 0; i < 33; i++ {
+					many = append(many, i)
+				}
+				return compact(
+					w.gdes(8, false, 1, 0),
+					w.gdes(8, false, 2),       // already designated at this block
+					w.gdes(4, false, 1, 2, 1), // duplicates
+					w.gdes(16, false),         // empty
+					w.gdes(32, false, many...),
+					w.gdes(4, true, 0),
+					w.gdes(5, false, 0),
+					w.gdes(4, false, 3, 0, 2))
+			case 11:
+				// setFeePerByte(2^64+777): big.Int.Int64 keeps the low 64 bits, the call HALTs and sets 777
+				wrap := new(big.Int).Add(new(big.Int).Lsh(big.NewInt(1), 64), big.NewInt(777))
+				return compact(w.gdes(8, false, 2), w.gcall("neo.setGasPerBlock", false, int64(4_0000_0000)),
+					w.committeeOp("policy.setFeePerByte", nativehashes.PolicyContract, "setFeePerByte", wrap.String(), true, false, wrap),
+					w.committeeOp("policy.setStoragePrice", nativehashes.PolicyContract, "setStoragePrice", wrap.String(), true, false, wrap))
+			}
+			return nil
+		},
+		restarts: []uint32{5, 10, 12},
+	})
+}
+
+func init() {
+	corpus = append(corpus,
+		corpusCase{
+			// a candidate registration as the ONLY governance event of an epoch, where it changes the computed committee
+			// (one voted candidate is not enough for a 2-seat committee, the second registration makes it elected):
+			// registerCandidate must mark the committee outdated; B restarts at the epoch end and recomputes anyway
+			name: "registration-only-epoch-then-restart", csize: 2, vcount: 1, extra: 2, blocks: 11,
+			gen: func(c *caseRun, h uint32) []*op {
+				w := c.w
+				switch h {
+				case 1:
+					return compact(c.setupGasOnly(), w.opNeoTransfer(w.val.ScriptHash(), c.net.Account(2), 30_000_000, false))
+				case 2:
+					return compact(w.opRegister(0, false, false))
+				case 3:
+					return compact(w.opVote(2, 0, false))
+				case 6:
+					return compact(w.opRegister(3, false, false))
+				}
+				return nil
+			},
+			restarts: []uint32{8},
+		},
+		corpusCase{
+			// (regression of the gasPerVoteCache wrong-key delete, fix 350d30d) a committee member with accumulated
+			// reward per vote loses its votes, unregisters and is dropped; B restarts; the key registers again, is
+			// voted back into the committee and accumulates reward from zero — a stale cached value would be added
+			name: "candidate-dropped-then-back-in-committee", csize: 2, vcount: 1, extra: 2, blocks: 13,
+			gen: func(c *caseRun, h uint32) []*op {
+				w := c.w
+				if h <= 3 {
+					return prelude(c, h)
+				}
+				switch h {
+				case 5:
+					return compact(w.opVote(3, -1, false))
+				case 6:
+					return compact(w.opRegister(0, true, false))
+				case 8:
+					return compact(w.opRegister(0, false, false))
+				case 9:
+					return compact(w.opVote(3, 0, false))
+				}
+				return nil
+			},
+			restarts: []uint32{8},
+		})
 }
